@@ -364,26 +364,28 @@ Proof. reflexivity. Qed.
 
 Lemma entry_rbody_read2 :
   (forall o n tv t, rentry2 o n tv t ->
-     forall fuel top g rest kids, gap false g -> nonul n -> wfv tv -> (o = true -> top = false) ->
-       length (g ++ t ++ rest) < fuel ->
-       entry fuel top (g ++ t ++ rest) kids = inr (addv n tv kids, after o rest)) /\
+     forall fuel d g rest kids, gap false g -> nonul n -> wfv tv -> (o = true -> d <> 0) ->
+       d + vdepth tv <= max_depth -> length (g ++ t ++ rest) < fuel ->
+       entry fuel d (g ++ t ++ rest) kids = inr (addv n tv kids, after o rest)) /\
   (forall es t, rbody2 es t ->
-     forall f fu rest ks, wf es -> length (t ++ rest) < f -> length (t ++ rest) + 1 < fu ->
-       body_of (entry f false) (S f) fu (t ++ rest) ks = inr (norm_into es ks, rest)).
+     forall f d fu rest ks, wf es -> S d + tdepth es <= max_depth -> length (t ++ rest) < f -> length (t ++ rest) + 1 < fu ->
+       body_of (entry f (S d)) (S f) fu (t ++ rest) ks = inr (norm_into es ks, rest)).
 Proof.
   apply rentry2_rbody2_min.
   - (* string *)
-    intros o n tn v tv g2 tt Hg2 Rn Rv Rt fuel top g rest kids Hg Hn Hv Ho Hl. inversion Hv; subst.
+    intros o n tn v tv g2 tt Hg2 Rn Rv Rt fuel d g rest kids Hg Hn Hv Ho0 Hd Hl. inversion Hv; subst.
+    assert (Ho : o = true -> Nat.eqb d 0 = false) by (intros X; apply Nat.eqb_neq; auto).
     destruct fuel as [|f]; [lia|]. rewrite entry_S. unfold entry_step.
     tokread Rn Hn cn tn0 Hcn Hpn. tokread Rv H0 cv tv0 Hcv Hpv.
     specialize (Hpn f (tt ++ rest)). specialize (Hpv f rest). nrm.
     rewrite pstring_skip by (trivial; len). rewrite Hpn. cbv beta iota.
     rewrite ws_gap_tok by (trivial; len). hd. rewrite Hpv. cbv beta iota.
-    destruct (rterm_read o tt Rt (S f) top rest Ho ltac:(len)) as (c2 & r3 & Hw & Hb & Hlen & Htl).
+    destruct (rterm_read o tt Rt (S f) (Nat.eqb d 0) rest Ho ltac:(len)) as (c2 & r3 & Hw & Hb & Hlen & Htl).
     rewrite Hw. cbv beta iota. change ((nb c2 =? 59)%N || (nb c2 =? 10)%N || (nb c2 =? 125)%N) with (termb c2).
     rewrite Hb, Htl. reflexivity.
   - (* host and service *)
-    intros o n tn h th s ts g2 g3 tt Hg2 Hg3 Rn Rh Rs Rt fuel top g rest kids Hg Hn Hv Ho Hl. inversion Hv; subst.
+    intros o n tn h th s ts g2 g3 tt Hg2 Hg3 Rn Rh Rs Rt fuel d g rest kids Hg Hn Hv Ho0 Hd Hl. inversion Hv; subst.
+    assert (Ho : o = true -> Nat.eqb d 0 = false) by (intros X; apply Nat.eqb_neq; auto).
     destruct fuel as [|f]; [lia|]. rewrite entry_S. unfold entry_step.
     tokread Rn Hn cn tn0 Hcn Hpn. tokread Rh H1 ch th0 Hch Hph. tokread Rs H2 cs ts0 Hcs Hps.
     specialize (Hpn f (g3 ++ cs :: ts0 ++ tt ++ rest)). specialize (Hph f (tt ++ rest)). specialize (Hps f rest). nrm.
@@ -392,7 +394,8 @@ Proof.
     rewrite ws_gap_tok by (trivial; len). hd. rewrite Hps. cbv beta iota.
     rewrite (rterm_tail o tt) by (trivial; len). reflexivity.
   - (* list in parentheses *)
-    intros o n tn l g2 t tt Hg2 Rn Ri Rt fuel top g rest kids Hg Hn Hv Ho Hl. inversion Hv; subst.
+    intros o n tn l g2 t tt Hg2 Rn Ri Rt fuel d g rest kids Hg Hn Hv Ho0 Hd Hl. inversion Hv; subst.
+    assert (Ho : o = true -> Nat.eqb d 0 = false) by (intros X; apply Nat.eqb_neq; auto).
     destruct fuel as [|f]; [lia|]. rewrite entry_S. unfold entry_step.
     tokread Rn Hn cn tn0 Hcn Hpn. specialize (Hpn f (tt ++ rest)). nrm.
     rewrite pstring_skip by (trivial; len). rewrite Hpn. cbv beta iota.
@@ -400,7 +403,8 @@ Proof.
     rewrite (plist_items2 l t Ri) by (trivial; len). cbv beta iota. cbn [rev app].
     rewrite (rterm_tail o tt) by (trivial; len). reflexivity.
   - (* list without parentheses *)
-    intros o n tn v tv l g2 g3 t Hg2 Hg3 Rn Rv Rc fuel top g rest kids Hg Hn Hv Ho Hl. inversion Hv; subst.
+    intros o n tn v tv l g2 g3 t Hg2 Hg3 Rn Rv Rc fuel d g rest kids Hg Hn Hv Ho0 Hd Hl. inversion Hv; subst.
+    assert (Ho : o = true -> Nat.eqb d 0 = false) by (intros X; apply Nat.eqb_neq; auto).
     match goal with X : Forall nonul (v :: l) |- _ => inversion X; subst end.
     destruct fuel as [|f]; [lia|]. rewrite entry_S. unfold entry_step.
     tokread Rn Hn cn tn0 Hcn Hpn. tokread Rv H2 cv tv0 Hcv Hpv.
@@ -408,43 +412,47 @@ Proof.
     rewrite pstring_skip by (trivial; len). rewrite Hpn. cbv beta iota.
     rewrite ws_gap_tok by (trivial; len). hd. rewrite Hpv. cbv beta iota.
     rewrite ws_gap_tok by (trivial; try reflexivity; len). tokc.
-    destruct (pcomma_items o l t Rc (S f) top [v] rest ltac:(assumption) Ho ltac:(len)) as (r4 & Hp4 & Hl4 & Ht4).
+    destruct (pcomma_items o l t Rc (S f) (Nat.eqb d 0) [v] rest ltac:(assumption) Ho ltac:(len)) as (r4 & Hp4 & Hl4 & Ht4).
     rewrite Hp4, Ht4. reflexivity.
   - (* object *)
-    intros o n tn es g2 t tt Hg2 Rn Rb IH Rt fuel top g rest kids Hg Hn Hv Ho Hl. inversion Hv; subst.
+    intros o n tn es g2 t tt Hg2 Rn Rb IH Rt fuel d g rest kids Hg Hn Hv Ho0 Hd Hl. inversion Hv; subst.
+    assert (Ho : o = true -> Nat.eqb d 0 = false) by (intros X; apply Nat.eqb_neq; auto).
     destruct fuel as [|f]; [lia|]. rewrite entry_S. unfold entry_step.
     tokread Rn Hn cn tn0 Hcn Hpn. specialize (Hpn f (tt ++ rest)). nrm.
     rewrite pstring_skip by (trivial; len). rewrite Hpn. cbv beta iota.
     rewrite ws_gap_tok by (trivial; try reflexivity; len). tokc.
+    rewrite vdepth_obj in Hd.
+    replace (Nat.leb max_depth d) with false by (symmetry; apply Nat.leb_gt; lia). cbv beta iota.
     rewrite IH by (trivial; len). cbv beta iota.
     rewrite (rterm_tail o tt) by (trivial; len). rewrite addv_obj. reflexivity.
   - (* end of object *)
-    intros g Hg f fu rest ks Hw Hf Hfu.
+    intros g Hg f d fu rest ks Hw Hd Hf Hfu.
     destruct fu as [|fu]; [lia|]. rewrite body_of_S. nrm.
     rewrite ws_gap_tok by (trivial; try reflexivity; len). tokc. reflexivity.
   - (* entry inside an object *)
-    intros g n tv t es t' Hg Hr IHe Hb IHb f fu rest ks Hw Hf Hfu. inversion Hw; subst.
+    intros g n tv t es t' Hg Hr IHe Hb IHb f d fu rest ks Hw Hd Hf Hfu. inversion Hw; subst. cbn [tdepth] in Hd.
     destruct fu as [|fu]; [lia|]. rewrite body_of_S. rewrite <- !app_assoc in *.
     destruct (rentry2_head _ _ _ _ Hr) as (c & t0 & -> & Hc).
     destruct (tokhead_facts c Hc) as (? & ? & ? & ? & ? & ? & ? & ?). cbn [app] in *.
     rewrite ws_gap_tok by (trivial; len). hd.
-    assert (X := IHe f false [] (t' ++ rest) ks (gap_nil _)). cbn [app] in X.
+    assert (X := IHe f (S d) [] (t' ++ rest) ks (gap_nil _)). cbn [app] in X.
     rewrite X by (trivial; len). cbv beta iota. rewrite after_false.
     apply IHb; trivial; len.
   - (* last entry of an object, without a terminator *)
-    intros g n tv t Hg Hr IHe f fu rest ks Hw Hf Hfu. inversion Hw; subst.
+    intros g n tv t Hg Hr IHe f d fu rest ks Hw Hd Hf Hfu. inversion Hw; subst. cbn [tdepth] in Hd.
     destruct fu as [|fu]; [lia|]. rewrite body_of_S. rewrite <- !app_assoc in *.
     destruct (rentry2_head _ _ _ _ Hr) as (c & t0 & -> & Hc).
     destruct (tokhead_facts c Hc) as (? & ? & ? & ? & ? & ? & ? & ?). cbn [app] in *.
     rewrite ws_gap_tok by (trivial; len). hd.
-    assert (X := IHe f false [] rest ks (gap_nil _)). cbn [app] in X.
+    assert (X := IHe f (S d) [] rest ks (gap_nil _)). cbn [app] in X.
     rewrite X by (trivial; len). cbv beta iota. cbn [after].
     destruct fu as [|fu]; [len|]. rewrite body_of_S. rewrite ws_stop by reflexivity. tokc. reflexivity.
 Qed.
 
-Theorem entry_read2 o n tv t fuel top g rest kids :
-  rentry2 o n tv t -> gap false g -> nonul n -> wfv tv -> (o = true -> top = false) -> length (g ++ t ++ rest) < fuel ->
-  entry fuel top (g ++ t ++ rest) kids = inr (addv n tv kids, after o rest).
+Theorem entry_read2 o n tv t fuel d g rest kids :
+  rentry2 o n tv t -> gap false g -> nonul n -> wfv tv -> (o = true -> d <> 0) -> d + vdepth tv <= max_depth ->
+  length (g ++ t ++ rest) < fuel ->
+  entry fuel d (g ++ t ++ rest) kids = inr (addv n tv kids, after o rest).
 Proof. intros H. apply (proj1 entry_rbody_read2); exact H. Qed.
 
 Lemma fend_ws w fuel : fend w -> length w < fuel -> ws fuel false w = (None, []).
@@ -460,18 +468,18 @@ Qed.
 
 (* explicit fuel: any amount of fuel that is at least length + 2 *)
 Theorem entries_read2 es t : rfile2 es t ->
-  forall fuel kids, wf es -> length t + 2 <= fuel -> entries fuel t kids = inr (norm_into es kids).
+  forall fuel kids, wf es -> tdepth es <= max_depth -> length t + 2 <= fuel -> entries fuel t kids = inr (norm_into es kids).
 Proof.
-  induction 1 as [w Hw|g n tv t es t' Hg Hr Hf IH]; intros fuel kids Hwf Hl.
+  induction 1 as [w Hw|g n tv t es t' Hg Hr Hf IH]; intros fuel kids Hwf Hd Hl.
   - destruct fuel as [|f]; [lia|]. rewrite entries_S. destruct w as [|c w]; [reflexivity|].
     rewrite entry_S. unfold entry_step. unfold pstring at 1.
     rewrite fend_ws by (trivial; lia). cbv beta iota.
     destruct f as [|f]; [cbn [length] in Hl; lia|]. reflexivity.
-  - inversion Hwf; subst. destruct fuel as [|f]; [lia|].
+  - inversion Hwf; subst. cbn [tdepth] in Hd. destruct fuel as [|f]; [lia|].
     destruct (rentry2_head _ _ _ _ Hr) as (c & t0 & Et & Hc).
     rewrite entries_S_ne by (subst t; destruct g; discriminate).
     rewrite (entry_read2 false n tv t) by (trivial; try discriminate; len).
-    rewrite after_false. apply IH; trivial. subst t. len.
+    rewrite after_false. apply IH; trivial; [lia|]. subst t. len.
 Qed.
 
 Lemma rfile2_nonempty es t : rfile2 es t -> es <> [] -> t <> [].
@@ -481,9 +489,10 @@ Proof.
 Qed.
 
 (* C16 for every rendering in the documented syntax *)
-Theorem parse_renders2 es t : rfile2 es t -> wf es -> es <> [] -> nonul t -> parse t = inr (norm es).
+Theorem parse_renders2 es t :
+  rfile2 es t -> wf es -> tdepth es <= max_depth -> es <> [] -> nonul t -> parse t = inr (norm es).
 Proof.
-  intros Hr Hw He Hn. pose proof (rfile2_nonempty _ _ Hr He) as Ht.
+  intros Hr Hw Hd He Hn. pose proof (rfile2_nonempty _ _ Hr He) as Ht.
   unfold parse. destruct t as [|c t]; [congruence|]. cbv zeta.
   rewrite cut_nul_id by exact Hn. apply entries_read2; trivial. lia.
 Qed.
@@ -497,7 +506,7 @@ Local Open Scope list_scope.
 
 Ltac bare := apply rs_bare; [discriminate|repeat constructor|exact eq_refl].
 Ltac fin := first [apply rf2_nil; apply fe_gap; apply gap_nil].
-Ltac start := apply parse_renders2; [|repeat constructor|discriminate|vm_compute; repeat constructor].
+Ltac start := apply parse_renders2; [|repeat constructor|apply Nat.leb_le; vm_compute; reflexivity|discriminate|vm_compute; repeat constructor].
 
 (* bare words, a newline as the terminator, a // comment before the newline *)
 Example ex_bare_newline :
